@@ -2,6 +2,7 @@
 //! vcheck — model-checking harness for anytls-rs (see /verif/DESIGN.md).
 
 mod ctl;
+mod cworld;
 mod det;
 mod lx;
 mod dxrun;
